@@ -282,7 +282,9 @@ def _generic(d, sig):
     world = {'sig': list(sig)}
     one = RefMV(world, {0: IP({(): 1})})
     signs = sym('signs', on_getitem=lambda interp, me, idx: O.bsign(idx[0], idx[1], world['sig']))
-    world['alg'] = sym('algebra', attrs={'d': d, 'blades': sym('blades', attrs={'e': one}), 'signs': signs})
+    world['alg'] = sym('algebra', attrs={'d': d, 'blades': sym('blades', attrs={'e': one}), 'signs': signs,
+                                         'p': list(sig).count(1), 'q': list(sig).count(-1), 'r': list(sig).count(0),
+                                         'signature': list(sig)})
     world['alg'].kvc_len = lambda: 2 ** d
     world['alg'].attrs['pss'] = RefMV(world, {2 ** d - 1: IP({(): 1})})
     world['alg'].attrs['scalar'] = sym('alg.scalar', callable_result=lambda interp, me, a, k: RefMV(world, {0: IP.lift(a[0][0])} if a and a[0] and a[0][0] else {}))
